@@ -71,7 +71,8 @@ func actSetvars(r R, id int, capture bool) []sl.Setvar {
 		case 0, 1, 2:
 			out = append(out, sl.Setvar{Key: Pick(r, []string{"score", "Score", "inbound"}), Kind: "+", Val: Pick(r, []string{"1", "2", "5", "%{tx.crit}"})})
 		case 3:
-			out = append(out, sl.Setvar{Key: "score", Kind: "-", Val: Pick(r, []string{"1", "3"})})
+			// the operand may itself be a counter that went below zero
+			out = append(out, sl.Setvar{Key: Pick(r, []string{"score", "debt"}), Kind: Pick(r, []string{"-", "-", "+"}), Val: Pick(r, []string{"1", "3", "7", "%{tx.score}", "%{tx.debt}"})})
 		case 4:
 			out = append(out, sl.Setvar{Key: fmt.Sprintf("f%d", id), Kind: "=", Val: Pick(r, []string{"on", "%{RULE.id}", "x%{tx.crit}y"})})
 		case 5:
